@@ -229,9 +229,15 @@ def run_case(case):
     nontrivial = 0
     passes = 0
     sample = None
+    rejected = []
+    small = case["key"].split(":")[1] in ("s1", "d0", "d1")
     for payload in case["progs"]:
         prog, cls, vio, detail = _check(case["kind"], payload)
         classes[cls] = classes.get(cls, 0) + 1
+        if small and cls.startswith("rejected"):
+            info = detail["pass1"]
+            rejected.append(f"{prog['key']} {info['stage']}:{info['type']}@"
+                            f"{info['where']}: {info['msg'][:120]}")
         if not cls.startswith("rejected"):
             nontrivial += 1
             passes += 3
@@ -247,6 +253,8 @@ def run_case(case):
     res = {"evals": count, "nontrivial": nontrivial, "states": count,
            "transitions": passes, "validated": nontrivial, "classes": classes,
            "viol": viol}
+    if rejected:
+        res["extra"] = {"rejected_small_programs": rejected}
     if sample:
         res["sample"] = sample
     return res
